@@ -74,7 +74,7 @@ func runC17(c *Ctx) {
 					bad = "bufio." + m + " at " + p.InstrPos(call) + ": its result aliases (or skips) the reader's buffer"
 				}
 			}
-			if id == "io.ReadFull" {
+			if p.isReadFull(call) {
 				nread++
 				if !cio.wrapsConn(cm.Args[0]) && !isFieldLoad(stripConv(cm.Args[0]), tReq, "rw") {
 					bad = "io.ReadFull at " + p.InstrPos(call) + " does not read from the request's buffered reader"
